@@ -50,10 +50,15 @@ def make_site(rng, i, depth):
         s["obs"] = [gen.expr(v)] * rng.randint(1, 3)
         s["sig"] = gen.kind_sig(p, 1)
     elif op in ("le", "ge"):
-        g, ts = gen.gen_ordered(rng, rng.randint(2, 7))
+        if rng.random() < 0.15:
+            # partial order: the observed values form a chain, the previous value may be incomparable to them
+            g, prev, chain = gen.gen_poset(rng, rng.randint(1, 4))
+            ts = [prev] + chain
+        else:
+            g, ts = gen.gen_ordered(rng, rng.randint(2, 7))
         s["old"] = None if missing else text(ts[0])
         obs = ts[1:]
-        if rng.random() < 0.3:
+        if rng.random() < 0.3 and not g.startswith("poset"):
             obs = obs + [ts[0]]
             rng.shuffle(obs)
         s["obs"] = [gen.expr(t) for t in obs]
@@ -279,6 +284,9 @@ def run_shard(args):
                 got = reported[sid] - {"update"}
                 key = "+".join(sorted(pend)) or "none"
                 C["pending_by_model"][key] = C["pending_by_model"].get(key, 0) + 1
+                if str(s["sig"]).startswith("poset"):
+                    pk = "partial_order_bound_sites_" + key
+                    C[pk] = C.get(pk, 0) + 1
                 if pend:
                     out["signatures"].add(f"{s['op']}/{s.get('child','')}/{key}/{'+'.join(sorted(F)) or '-'}/{s['sig']}")
                 base = {"site": sid, "op": s["op"], "child": s.get("child"), "old": s["old"], "obs": s["obs"], "F": sorted(F)}
